@@ -26,6 +26,7 @@ func registerModels(e *Engine) {
 	registerJSON(e)
 	registerPath(e)
 	registerURL(e)
+	registerReflect(e)
 }
 
 const modelPkgPath = "github.com/regclient/regclient/internal/zzmodel"
@@ -1084,6 +1085,29 @@ func registerRegexp(e *Engine) {
 	e.on("(*regexp.Regexp).ReplaceAllString", func(fr *Frame, a []Value) Value {
 		return fr.p.reReplaceAll(fr.p.reOf(a[0]), a[1].(Str), a[2].(Str))
 	})
+	e.on("(*regexp.Regexp).ReplaceAll", func(fr *Frame, a []Value) Value {
+		src := bytesToStr(a[1].([]Value))
+		repl := bytesToStr(a[2].([]Value))
+		return fr.p.reReplaceAll(fr.p.reOf(a[0]), src, repl).(Str).toBytes()
+	})
+	concOnly := func(name string, f func(re *regexp.Regexp, s string) Value) {
+		e.on("(*regexp.Regexp)."+name, func(fr *Frame, a []Value) Value {
+			s, ok := fr.p.conc(a[1].(Str)).Concrete()
+			if !ok {
+				panic(abort("unsupported: regexp." + name + " on a symbolic string"))
+			}
+			return f(fr.p.reOf(a[0]).re, s)
+		})
+	}
+	concOnly("FindString", func(re *regexp.Regexp, s string) Value { return CStr(re.FindString(s)) })
+	concOnly("FindAllString", func(re *regexp.Regexp, s string) Value {
+		var out []Value
+		for _, m := range re.FindAllString(s, -1) {
+			out = append(out, CStr(m))
+		}
+		return out
+	})
+	e.on("(*regexp.Regexp).NumSubexp", func(fr *Frame, a []Value) Value { return smt.I(int64(fr.p.reOf(a[0]).re.NumSubexp())) })
 	e.on("(*regexp.Regexp).FindStringIndex", func(fr *Frame, a []Value) Value {
 		s, ok := fr.p.conc(a[1].(Str)).Concrete()
 		if !ok {
